@@ -29,6 +29,7 @@ CONSTANTS Reps,         \* replica ids, e.g. {1, 2}; replica 1 creates the graph
           BootAll,      \* TRUE: every replica starts with the graph (init committed)
           MaxRank,      \* ranks (id order positions) available to new commands
           AllRanks,     \* new commands take every free rank (else only the least / greatest)
+          AllowBadMerge,\* forged merges over concurrent finalize commands (C05)
           AllowBad,     \* malformed init deliveries (C10)
           PubWeight, CommitWeight, SyncWeight,   \* simulation weights (copies of the sub-action)
           ActWeight1,   \* simulation weight of starting an action on a single-head replica
@@ -219,6 +220,19 @@ DeliverBad(r, t) ==
        /\ Record([op |-> "bad", r |-> r, t |-> t, shape |-> shape, exists |-> rep[r].exists, res |-> "InitError"])
   /\ UNCHANGED <<dag, rep, npoison, noise>>
 
+(* C05: a forged merge command over two concurrent finalize commands the transaction already
+   holds (no honest replica writes one): refused with ParallelFinalize, nothing changes — in
+   particular its parents stay heads of the transaction, so a later commit still fails. *)
+DeliverBadMerge(r, t) ==
+  /\ AllowBadMerge /\ r \in Receivers /\ Steps /\ Idle(r) /\ rep[r].exists /\ nbad < 2
+  /\ LET x == Touch(r, t) known == rep[r].committed \cup x.base \cup x.acc IN
+     \E l \in known, rr \in known :
+       /\ l < rr /\ Concurrent(l, rr) /\ RefBraid({l, rr}).err
+       /\ tx' = [tx EXCEPT ![r][t] = x]
+       /\ nbad' = nbad + 1
+       /\ Record([op |-> "badmerge", r |-> r, t |-> t, l |-> l, rr |-> rr, res |-> "ParallelFinalize"])
+  /\ UNCHANGED <<dag, rep, npoison, noise>>
+
 Flush(r, t) ==
   /\ Steps /\ Idle(r) /\ tx[r][t].open /\ tx[r][t].acc # {}
   /\ hist # <<>> /\ hist[Len(hist)].op # "flush"
@@ -275,7 +289,7 @@ Next ==
      \/ (\E w \in 1..ActWeight1 : ActBegin(r))      \* TLC's simulator picks a sub-action uniformly:
      \/ (\E w \in 1..ActWeight : ActBegin(r) /\ Cardinality(rep[r].heads) >= 2)   \* copies = weight
      \/ ActMerge(r) \/ (\E w \in 1..PubWeight : ActPublish(r)) \/ ActFail(r)
-     \/ \E t \in Txns : Deliver(r, t) \/ DeliverInit(r, t) \/ DeliverPoison(r, t) \/ DeliverBad(r, t) \/ Flush(r, t)
+     \/ \E t \in Txns : Deliver(r, t) \/ DeliverInit(r, t) \/ DeliverPoison(r, t) \/ DeliverBad(r, t) \/ DeliverBadMerge(r, t) \/ Flush(r, t)
                         \/ (\E w \in 1..CommitWeight : Commit(r, t)) \/ CommitNoop(r, t)
      \/ \E p \in Reps, w \in 1..SyncWeight : SyncAll(r, p)
 
